@@ -64,9 +64,10 @@ Cands(op) ==
                                                !.o = StreamO([Type |-> NameO("XObject"), Subtype |-> NameO("Form")], <<90, 10>>, FALSE)]
                                      : p \in Pages_}
       [] op = "ChangeContentStream" -> {[C EXCEPT !.id = id, !.b = b] : id \in Streams(doc), b \in ByteStrings}
-      [] op = "GetOrCreateResources" -> {[C EXCEPT !.id = p] : p \in Pages_}
-      [] op = "AddXObject"   -> {[C EXCEPT !.id = p, !.name = "X1", !.x = MaxOf(Streams(doc))] : p \in Pages_}
-      [] op = "AddGraphicsState" -> {[C EXCEPT !.id = p, !.name = "G1", !.x = MaxOf(DOMAIN doc.objs)] : p \in Pages_}
+      \* the resource calls on the Document and (fmt = "inc") their twins on an IncrementalDocument made from it
+      [] op = "GetOrCreateResources" -> {[C EXCEPT !.id = p, !.fmt = f] : p \in Pages_, f \in {"", "inc"}}
+      [] op = "AddXObject"   -> {[C EXCEPT !.id = p, !.name = "X1", !.x = MaxOf(Streams(doc)), !.fmt = f] : p \in Pages_, f \in {"", "inc"}}
+      [] op = "AddGraphicsState" -> {[C EXCEPT !.id = p, !.name = "G1", !.x = MaxOf(DOMAIN doc.objs), !.fmt = f] : p \in Pages_, f \in {"", "inc"}}
       [] op = "Save"         -> {[C EXCEPT !.fmt = f] : f \in {"table", "stream"}}
       [] op = "SaveLoad"     -> {[C EXCEPT !.fmt = "table"]}
       \* renumber_objects() = start 1; a start inside the numbers in use; a start above all of them
